@@ -177,6 +177,10 @@ def control_chars(check, tier):
 
 
 def run(check, tier, seed):
+    from pyvc.verify import verify
+    import contracts.valuemodel as VM
+    for c in VM.ALL:            # this property's contracts are stated over the executor's value model of Chunk / FmtStr: the real constructors and
+        verify(c, tier, check, prefix="C05")      # accessors must behave as that model says (same obligations as in C13, decided here too)
     verify(E.token_type_contract(True), tier, check)
     bounded(check, tier, seed)
     control_chars(check, tier)
